@@ -49,7 +49,7 @@ macro_rules! trunc_at {
             set_len($len);
             let x: $t = <$t as VT>::any();
             let (buf, n) = ser::<$t, REFCAP>(&x, 0).unwrap();
-            assert!($k < n, "harness: cut offset must be a strict prefix");
+            kani::assume($k < n); // values whose encoding is not longer than the cut are not truncated by it
             match de::<$t>(&buf[..$k], 0) {
                 Ok((y, _)) => {
                     std::mem::forget(y);
